@@ -26,6 +26,7 @@ impl InstructionGenerator {
 
         // if true, run statements and jump out
         self.visit(if_block.statements);
+        self.mark_statement_address(); // to be able to resume on error
         self.jump("end-if", pos);
 
         for i in 0..else_if_blocks.len() {
@@ -47,6 +48,7 @@ impl InstructionGenerator {
 
             // if true, run statements and jump out
             self.visit(else_if_block.statements);
+            self.mark_statement_address(); // to be able to resume on error
             self.jump("end-if", pos);
         }
 
